@@ -47,6 +47,23 @@ for f in sorted(glob.glob(os.path.join(V, "notes", "[CG]*.md"))):
     body = open(f).read().strip()
     body = re.sub(r"^(#+) ", lambda m: "#" * min(6, len(m.group(1)) + 3) + " ", body, flags=re.M)
     out += ["#### 12.3.%s" % pid, "", body, ""]
+mp = os.path.join(V, "notes", "MEASURED.json")
+if os.path.exists(mp):
+    md = json.load(open(mp))
+    out += ["### 12.4 Measured cost and volume (one run per check and tier, seed 1, final tree)", "",
+            "Generated from `notes/MEASURED.json` (`tools/measure.py`): wall time on the 16-core sandbox with the 1-minute load average at the end of the run "
+            "(other jobs were running; an idle machine is faster), exit status, number of KNOWN-FINDING lines, TLC distinct states / generated states summed over "
+            "the runs of the check, evaluations of the real code, traces validated, and whether the enumerated universe was replayed completely.", "",
+            "| check | tier | exit | wall s | load | known | TLC runs | distinct states | generated | evaluations of the code | traces | exhaustive |",
+            "|---|---|---|---|---|---|---|---|---|---|---|---|"]
+    for pid in sorted(md):
+        for tier in ("quick", "thorough"):
+            r = md[pid].get(tier)
+            if r:
+                out.append("| %s | %s | %s | %s | %s | %s | %s | %s | %s | %s | %s | %s |" % (
+                    pid, tier, r.get("exit"), r.get("wall_s"), r.get("load1"), r.get("known_findings"), r.get("tlc_runs"),
+                    r.get("states"), r.get("transitions"), r.get("evaluations"), r.get("traces"), r.get("exhaustive")))
+    out.append("")
 out += [END]
 p = os.path.join(V, "DESIGN.md")
 s = open(p).read()
